@@ -31,6 +31,7 @@ import (
 )
 
 const unkSlot = 32768
+const issetSlot = 32769
 
 type pair struct {
 	Key      string
@@ -167,6 +168,20 @@ func retypeK(p *schemagen.Program, t *schemagen.Type, v *valgen.Value) *valgen.V
 				out = append(out, fv)
 			}
 		}
+		for _, fv := range v.F {
+			if fv.ID == issetSlot && fv.V.K == "struct" {
+				// IsSet answers, put into schema order
+				var is []valgen.FieldVal
+				for _, f := range s.Fields {
+					for _, x := range fv.V.F {
+						if x.ID == f.ID {
+							is = append(is, x)
+						}
+					}
+				}
+				out = append(out, valgen.FieldVal{ID: issetSlot, V: valgen.Struct(is)})
+			}
+		}
 		seen := map[int]bool{}
 		for _, f := range s.Fields {
 			for _, fv := range v.F {
@@ -177,7 +192,7 @@ func retypeK(p *schemagen.Program, t *schemagen.Type, v *valgen.Value) *valgen.V
 			}
 		}
 		for _, fv := range v.F {
-			if fv.ID != unkSlot && !seen[fv.ID] {
+			if fv.ID != unkSlot && fv.ID != issetSlot && !seen[fv.ID] {
 				out = append(out, valgen.FieldVal{ID: fv.ID, V: valgen.Bad()})
 			}
 		}
@@ -246,7 +261,7 @@ func countCarry(v *valgen.Value, st *stats) {
 		for _, f := range v.F {
 			if f.ID == unkSlot {
 				st.Carrying[fmt.Sprint(f.V.B)]++
-			} else {
+			} else if f.ID != issetSlot {
 				countCarry(f.V, st)
 			}
 		}
@@ -490,12 +505,45 @@ func main() {
 				}
 			}
 		}
+		if p.Key == "cp" {
+			// old corpus data read by new code: added default-carrying fields at every position
+			cv := corpusOldValues()
+			names := make([]string, 0, len(cv))
+			for k := range cv {
+				names = append(names, k)
+			}
+			sort.Strings(names)
+			for _, name := range names {
+				s := p.Old.Struct(name)
+				for _, v := range cv[name] {
+					st.Values++
+					addChain(p, true, s, v, H("np ok np"), true)
+					addChain(p, true, s, v, H("nk op"), true)
+					addChain(p, true, s, v, H("np"), true)
+				}
+			}
+		}
 		for _, sn := range p.New.Structs() {
 			so := p.Old.Struct(sn.QName())
 			if so == nil {
 				continue
 			}
 			st.Structs++
+			// rich / bare / rich neighbouring elements in every container of struct-likes, both directions
+			if valgen.StructHasStructContainer(so) {
+				vo := gO.Neighbours(so, 2)
+				dropNilStructKeys(p.Old, &schemagen.Type{Kind: "struct", Name: so.QName()}, vo)
+				st.Values++
+				addChain(p, true, so, vo, H("np ok np"), false)
+				addChain(p, true, so, vo, H("nk"), false)
+			}
+			if valgen.StructHasStructContainer(sn) {
+				vn := gn.Neighbours(sn, 2)
+				dropNilStructKeys(p.New, &schemagen.Type{Kind: "struct", Name: sn.QName()}, vn)
+				st.Values++
+				addChain(p, false, sn, vn, H("ok np ok"), false)
+				addChain(p, false, sn, vn, H("op"), false)
+			}
 			for k := 0; k < nVal; k++ {
 				v := gn.Struct(sn, rr.Range(0, 3))
 				dropNilStructKeys(p.New, &schemagen.Type{Kind: "struct", Name: sn.QName()}, v)
@@ -564,7 +612,7 @@ func main() {
 			}
 			// old data read by new code
 			for k := 0; k < (nVal+1)/2; k++ {
-				v := gO.Struct(so, rr.Range(0, 3))
+				v := gO.Struct(so, rr.Range(1, 3))
 				dropNilStructKeys(p.Old, &schemagen.Type{Kind: "struct", Name: so.QName()}, v)
 				st.Values++
 				if k%2 == 0 {
